@@ -226,7 +226,11 @@ GLeaves == <<
     \* a map with unconstrained keys (any hashable: numbers, tuples) and typed values
     With(DictF(NoF, With(IntF, [hasmin |-> TRUE, min |-> 0])), [default |-> DictV(<<>>)]),
     \* choices that are not in the transform's own case: only the exact spelling is a choice
-    With(StringF, [tcase |-> "lower", choices |-> << <<"R", "e", "d">>, <<"a", "b">> >>]) >>
+    With(StringF, [tcase |-> "lower", choices |-> << <<"R", "e", "d">>, <<"a", "b">> >>]),
+    \* a required text field of a subclass with a syntax check of its own
+    With(UrlF, [required |-> TRUE, default |-> s(<<"h", "t", "t", "p", ":", "/", "/", "a">>)]),
+    \* a map of typed maps
+    With(DictF(StringF, DictF(StringF, With(IntF, [hasmin |-> TRUE, min |-> 0]))), [default |-> DictV(<<>>)]) >>
 GSubs == <<
     SchemaF(<< <<"x", With(IntF, [default |-> IntV(1), required |-> TRUE])>>, <<"y", With(StringF, [choices |-> << <<"u">>, <<"v">> >>])>> >>),
     [validators |-> <<"x_not_3">>] @@ SchemaF(<< <<"x", With(IntF, [default |-> IntV(1)])>> >>),
@@ -238,7 +242,7 @@ GSubs == <<
     [flagkey |-> "enabled"] @@ SchemaF(<< <<"x", With(IntF, [hasmin |-> TRUE, min |-> 1, hasmax |-> TRUE, max |-> 9, required |-> TRUE, default |-> IntV(2)])>>,
                                           <<"enabled", With(BoolF, [default |-> BoolV(FALSE)]) @@ [flag |-> TRUE]>> >>) >>
 GNodes == GLeaves \o GSubs
-NG == 34
+NG == 36
 ASSUME NG = Len(GNodes)
 GFirst == SchemaF(<< <<"a", With(IntF, [hasmin |-> TRUE, min |-> 1, hasmax |-> TRUE, max |-> 9, default |-> IntV(5)])>>,
                      <<"s", With(StringF, [tcase |-> "lower", stripm |-> "ws", default |-> s(<<"a", "b">>)])>> >>)
@@ -255,7 +259,7 @@ MCFamilyAt2(i) == IF i = 1 THEN GFirst
                   ELSE SchemaF(<< <<"a", GNodes[((i - 2) \div NG) + 1]>>, <<"s", GNodes[((i - 2) % NG) + 1]>> >>)
 \* three keys: a sub-schema, a leaf, anything
 NS3 == 7   \* sub-schema shapes
-NL3 == 27  \* leaf shapes
+NL3 == 29  \* leaf shapes
 ASSUME NS3 = Len(GSubs) /\ NL3 = Len(GLeaves)
 MCFamilyN3 == MCFamilyN2 + NS3 * NL3 * NG
 MCFamilyAt3(i) == IF i <= MCFamilyN2 THEN MCFamilyAt2(i)
